@@ -107,13 +107,30 @@ func runConfig(run *ev.Run, caseIdx int) {
 		opt.Issuer = fmt.Sprintf("https://tenant-%d.verif.test", r.IntN(1000)) // what the request's Host header will say
 		opt.IssuerFn = op.IssuerFromHost("")
 	}
-	formURL := false
+	// dimensions added later draw from a stream of their own, so that the older ones keep their values per case
+	r2 := run.CaseRand(1601, caseIdx)
+	formKnob := "path"
 	if r.IntN(10) == 0 && via != "static-path" {
+		formKnob = "url"
+	}
+	if k := r2.IntN(12); via != "static-path" && k < 4 {
+		formKnob = [4]string{"url", "url", "url-deep", "url-query"}[k]
+	}
+	switch formKnob {
+	case "url":
 		// deprecated knob: the complete URL of the form (kept on the issuer here)
-		formURL = true
 		dc.UserFormURL = opt.Issuer + "/legacy-form"
+	case "url-deep":
+		dc.UserFormURL = opt.Issuer + "/ui/v2/device/activate"
+	case "url-query":
+		// a form address with parameters of its own (what becomes of them in the complete URI is an open point)
+		dc.UserFormURL = opt.Issuer + "/legacy-form?tenant=a&lang=de"
+	}
+	formURL := formKnob != "path"
+	if formURL {
 		dc.UserFormPath = "/ignored"
 	}
+	nReq := 2 + r2.IntN(3) // several flows per provider: a response must not depend on the flows before it
 	opt.Config = opdrv.DefaultConfig()
 	opt.Config.DeviceAuthorization = dc
 	cfgLit := map[string]any{"alphabet": al.set, "alphabet_kind": al.kind, "char_amount": uc.CharAmount, "dash_interval": uc.DashInterval,
@@ -131,7 +148,8 @@ func runConfig(run *ev.Run, caseIdx int) {
 		violated := func(key, what string) {
 			run.Violation("C16:"+rn+":"+key, int64(cfgBase+caseIdx), what, map[string]any{"part": "configuration", "router": rn, "configuration": cfgLit, "history": log})
 		}
-		for k := 0; k < 2; k++ {
+		others := map[string]string{}
+		for k := 0; k < nReq; k++ {
 			a := pop[pick(r, "dev", "dev2", "devpub", "devjwt")]
 			auth, _ := credFor(w, a, "right")
 			scopes := pick(r, scopeChoices...)
@@ -157,7 +175,7 @@ func runConfig(run *ev.Run, caseIdx int) {
 				violated("device-authorization-refused", "a plainly registered device client with proper credentials was refused under a valid configuration: "+resp.Brief())
 				return
 			}
-			res, greys, f := judgeDeviceResponse(w, resp, daExpect{issuer: opt.Issuer, cfg: dc, client: a.id, scopes: fields(scopes), issuerVia: via}, t0, t1)
+			res, greys, f := judgeDeviceResponse(w, resp, daExpect{issuer: opt.Issuer, cfg: dc, client: a.id, scopes: fields(scopes), issuerVia: via, others: others}, t0, t1)
 			for _, g := range greys {
 				run.Count("grey", g)
 			}
@@ -165,7 +183,14 @@ func runConfig(run *ev.Run, caseIdx int) {
 				violated("response:"+f.key, f.what)
 				return
 			}
-			run.Distinct(fmt.Sprintf("cfg|%s|%s|n=%s|dash=%s|%s|%s|%s|%s|url=%v|%s", rn, al.kind, bucketAmount(uc.CharAmount), dashClass(uc.CharAmount, uc.DashInterval), dc.Lifetime, dc.PollInterval, dc.UserFormPath, via, formURL, a.kind))
+			others[res.UserCode] = fmt.Sprintf("flow %d of this provider (client %s)", k+1, a.id)
+			nth := "first-flow"
+			if k > 0 {
+				nth = "later-flow"
+			}
+			run.Distinct(fmt.Sprintf("cfg|%s|%s|n=%s|dash=%s|%s|%s|%s|%s|form=%s|%s|%s", rn, al.kind, bucketAmount(uc.CharAmount), dashClass(uc.CharAmount, uc.DashInterval), dc.Lifetime, dc.PollInterval, dc.UserFormPath, via, formKnob, a.kind, nth))
+			run.Count("config_form", formKnob+":"+nth)
+			run.Observed("config:form-" + map[bool]string{true: "url", false: "path"}[formURL] + ":" + nth + ":" + rn)
 			run.Count("config_alphabet", al.kind)
 			run.Count("config_amount", bucketAmount(uc.CharAmount))
 			run.Count("config_dash", dashClass(uc.CharAmount, uc.DashInterval))
